@@ -50,7 +50,7 @@ func hasNaNPrefix(s string) bool {
 // "looks numeric" for a split element / field: goawk's value.isTrueStr (property C05's
 // subject; here it is given data for both the model and the reference)
 func strictParse(s string) (float64, bool) {
-	s = strings.TrimSpace(s)
+	s = strings.Trim(s, " \t\n\v\f\r") // ASCII blanks only (interp.trimASCIISpace, /repo fix b246cd4)
 	noP := strings.IndexByte(s, 'p') < 0 && strings.IndexByte(s, 'P') < 0
 	if len(s) > 1 && (s[0] == '+' || s[0] == '-') {
 		if len(s) == 4 && hasNaNPrefix(s[1:]) {
@@ -63,6 +63,9 @@ func strictParse(s string) (float64, bool) {
 		s += "p0"
 	}
 	n, err := strconv.ParseFloat(s, 64)
+	if ne, ok := err.(*strconv.NumError); ok && ne.Err == strconv.ErrRange {
+		err = nil // out of range is still a number: +-Inf (/repo fix 35776be)
+	}
 	if err == nil && strings.IndexByte(s, '_') >= 0 {
 		return 0, false
 	}
